@@ -56,7 +56,7 @@ PROPS = {
     "C11": dict(engine="e1", quick=8000, thorough=150000, level="exploration",
                 text="Conditional accumulation at several depths; accumulated() at random points of histories that make accumulating nodes backdate, be shallow/deep verified, partially reused or NEVER_CHANGE; the returned vector must equal the reference DFS order exactly.",
                 note="Reference DFS order transcribed from the documented order (own values, then callees in first-call order, each once)."),
-    "C12": dict(engine="e1", quick=10000, thorough=200000, level="exploration",
+    "C12": dict(engine="e1", quick=25000, thorough=200000, level="exploration",
                 text="Seeded cyclic programs over a 4-bit set lattice with monotone q_fix/q_fixj members (nested, input-conditional cycles), all entry orders, histories that create/remove/reshape cycles; every value = least fixpoint computed by Kleene iteration in the reference.",
                 note="Monotonicity and input-only call-graph shape are enforced by a taint discipline in the generator and re-checked by Program::valid."),
     "C13": dict(engine="e1", quick=2500, thorough=60000, level="exploration",
@@ -83,7 +83,7 @@ PROPS = {
     "C19": dict(level="exploration", parts=[dict(engine="e3", quick=6000, thorough=150000)],
                 text="Trace validation: every E3 run (reader, cross-thread cycle, writer-cancellation, token-cancellation and panic-with-waiters scenarios) records the operations of the dependency graph and of claim release through a feature-gated hook; an independent executable model of the protocol replays the trace: every wait is woken exactly once and resumes with that result, no wake-up reaches a non-waiting thread, the thread wait-for graph (with edges re-pointed by lock transfers) stays acyclic after every insertion, each wake-up result is justified by the release (or ownership hand-over) that caused it, nothing is left waiting at quiescence.",
                 note="The exhaustive model check named in the property's quantifier is outside this technique family and is not claimed; the claim is trace validation over all explored schedules."),
-    "C20": dict(level="exploration", parts=[dict(engine="e3", quick=6000, thorough=150000)],
+    "C20": dict(level="exploration", parts=[dict(engine="e3", quick=15000, thorough=150000)],
                 text="Reader threads run generated programs (acyclic and fixpoint) while the main thread performs one write (input write, synthetic write, set_lru_capacity, trigger_lru_eviction, trigger_cancellation) at a scheduler-chosen moment; readers drop their clone when done or cancelled: the writer must terminate, every reader value = reference of the pre-write revision, every reader panic is a Cancelled (PendingWrite, or PropagatedPanic for readers waiting on a cancelled reader), after the write everything = reference of the new inputs.",
                 note="Which cancellation payload a waiting reader sees is not constrained by the property; only value freshness and writer progress are checked."),
     "C21": dict(level="exploration", parts=[dict(engine="e3", quick=6000, thorough=150000)],
@@ -92,12 +92,12 @@ PROPS = {
     "C24": dict(level="exploration", parts=[dict(engine="e3", quick=6000, thorough=150000)],
                 text="Threads create inputs, tracked structs (through queries on distinct keys) and interned values concurrently while handles are cloned and dropped; ids of inputs pairwise distinct, tracked-struct ids distinct per (creator, ident), every id reads back the fields it was created with.",
                 note="Page recycling is exercised through clone/drop of handles; the small-page knob is not built."),
-    "C22": dict(level="fault_enumeration", parts=[dict(engine="e1", quick=100, thorough=6000), dict(engine="e3", quick=500, thorough=15000)],
-                text="Fault enumeration (E1): every generated base history is first run fault-free to count user callbacks by class (body op, V::eq, V::hash, cycle_fn, cycle_initial/cycle_result, event callback); it is then re-run with a panic injected at every callback of the rare classes and a sample of body ops. Oracle: the panic reaches the caller of that step, the step is retried (after a new revision for poisoned cycle members) and every later result = reference; a process abort (double panic) is reported from the worker's seed file. Concurrent part (E3): a panic at a random callback while other threads request the same or dependent nodes: waiters get PropagatedPanic or a correct value, never hang.",
+    "C22": dict(level="fault_enumeration", parts=[dict(engine="e1", quick=3000, thorough=40000), dict(engine="e3", quick=500, thorough=15000)],
+                text="Fault enumeration (E1): every generated base history is first run fault-free to count user callbacks by class (body op, V::eq, V::hash, cycle_fn, cycle_initial/cycle_result, event callback); it is then re-run with a panic injected at every callback of the rare classes and a sample of body ops; half of the base histories are those of the churn classes (C07 struct/interned slot reuse, C09 retention, C06 struct identity, C05 LRU), truncated to 30 steps, so that discards and slot reuse become fault points inside histories that revisit the affected memos. Oracle: the panic reaches the caller of that step, the step is retried (after a new revision for poisoned cycle members) and every later result = reference; a process abort (double panic) is reported from the worker's seed file. Concurrent part (E3): a panic at a random callback while other threads request the same or dependent nodes: waiters get PropagatedPanic or a correct value, never hang.",
                 note="One genuine defect was repaired (fix: commit f6eb44f), one is recorded (known-findings.txt: stale-output deletion interrupted by an event-callback panic)."),
-    "C23": dict(level="exploration", parts=[dict(engine="e1", quick=2500, thorough=60000)],
-                text="Histories of the single-handle classes (structs, interning with reclamation, LRU eviction, fixpoint and fallback cycles, specify, accumulators; one third with an injected panic) executed under a quarantining, poisoning global allocator: freed blocks are poisoned and parked, so a read after free yields poison (checked on every value read back from salsa), a write after free is detected when the block leaves quarantine, a free of a quarantined block is a double free; references returned by q_ref are held across later requests and revalidated until the next mutable borrow; on a sample the live bytes left after dropping the database must not grow from one execution to the next. A segfault/abort of a worker is attributed to its seed.",
-                note="Dynamic detection on sampled histories, not a proof of absence; single-threaded only (the concurrent engine does not run under the guard); the thorough tier adds a Miri sample of the single-handle classes (guard off there)."),
+    "C23": dict(level="exploration", parts=[dict(engine="e1", quick=2500, thorough=60000), dict(engine="e3", quick=3000, thorough=60000)],
+                text="Histories of the single-handle classes (structs, interning with reclamation, LRU eviction, fixpoint and fallback cycles, specify, accumulators; one third with an injected panic) executed under a quarantining, poisoning global allocator: freed blocks are poisoned and parked, so a read after free yields poison (checked on every value read back from salsa), a write after free is detected when the block leaves quarantine, a free of a quarantined block is a double free; references returned by q_ref are held across later requests and revalidated until the next mutable borrow; on a sample the live bytes left after dropping the database must not grow from one execution to the next. A segfault/abort of a worker is attributed to its seed. Concurrent part (E3): the scenario families that free or recycle memory while other threads run (writer cancellation with LRU changes, token cancellation, panics with waiters, interned reclamation, struct creation with handle clone/drop, cross-thread cycles) under the same allocator and the seeded schedulers; only the memory classes (poison read, write after free, double free, abort) count there.",
+                note="Dynamic detection on sampled histories and schedules, not a proof of absence; the baton scheduler serialises threads, so data races on plain memory are out of reach (sequentially consistent interleavings only); the thorough tier adds a Miri sample of the single-handle classes (guard off there)."),
     "C26": dict(level="exploration", parts=[dict(engine="e1p", quick=6000, thorough=100000)],
                 text="Histories with SnapshotRestore steps (serde_json round trip of the whole database into a fresh database of the same type = crash/restart with only durable state surviving) at arbitrary points; every persisted function returns the reference value on the restored database, unchanged persisted results are not re-executed (justification model), the history continues with values = reference.",
                 note="q_noeq / q_lru are deliberately not persisted (dependency flattening); recorded findings are matched by their own classes."),
@@ -240,12 +240,33 @@ def run_check(prop, tier):
             cmd = [sim_bin(engine), "run", "--prop", prop, "--tier", tier, "--base", str(seed),
                    "--from", str(w * per_worker), "--to", str((w + 1) * per_worker), "--out", out,
                    "--max-s", str(part.get("max_s_" + tier, 100000)), "--known", ",".join(known_classes(prop))]
+            WORKER_CMDS[(engine, w)] = dict(engine=engine, prop=prop, tier=tier, base=seed, frm=w * per_worker, to=(w + 1) * per_worker)
             procs.append((w, out, engine, subprocess.Popen(cmd, env=ENV, stdout=subprocess.PIPE, stderr=subprocess.PIPE, text=True)))
         run_part(procs, results, harness_errors, aborts)
     miri = None
     if prop == "C23" and tier == "thorough" and os.environ.get("VERIF_NO_MIRI") is None:
         miri = miri_sample(out_root, seed, harness_errors)
     finish_check(prop, tier, cfg, parts, seed, t0, out_root, all_outs, results, harness_errors, aborts, miri)
+
+
+WORKER_CMDS = {}
+
+
+def replay_range(rg, timeout):
+    """Re-run a worker's seed range [frm, to) in a fresh process (the worker is a deterministic
+    function of its arguments). Returns the process return code (None = timed out)."""
+    out = os.path.join(TARGET, "range-replay", f"{rg['prop']}-{rg['frm']}-{rg['to']}")
+    shutil.rmtree(out, ignore_errors=True)
+    cmd = [sim_bin(rg["engine"]), "run", "--prop", rg["prop"], "--tier", rg["tier"], "--base", str(rg["base"]),
+           "--from", str(rg["frm"]), "--to", str(rg["to"]), "--out", out, "--max-s", "100000",
+           "--known", ",".join(known_classes(rg["prop"]))]
+    try:
+        p = subprocess.run(cmd, env=ENV, stdout=subprocess.PIPE, stderr=subprocess.PIPE, text=True, timeout=timeout)
+        return p.returncode
+    except subprocess.TimeoutExpired:
+        return None
+    finally:
+        shutil.rmtree(out, ignore_errors=True)
 
 
 MIRI_PROPS = ["C01", "C05", "C07", "C10", "C11", "C12", "C13", "C15"]
@@ -400,7 +421,31 @@ def finish_check(prop, tier, cfg, parts, seed, t0, out_root, all_outs, results, 
             if p.returncode not in (0,):
                 confirmed.append(({"seed": int(seedinfo[1]), "classes": ["process_abort"], "detail": f"worker aborted (rc={rc}): {se[-300:]}", "signature": f"{prop}|process_abort"}, dst))
             else:
-                harness_errors.append(f"worker {w} aborted (rc={rc}) at seed {seedinfo[1]} but the seed does not abort alone: {se[-300:]}")
+                # the seed does not abort alone: the process state was damaged by an earlier run of
+                # the same worker (memory corruption surfaces late). The worker is a deterministic
+                # function of its seed range, so replay the range up to and including that seed.
+                rg = WORKER_CMDS.get((engine, w))
+                n = int(seedinfo[1]) - (seed << 20)
+                rrc = None
+                if rg and rg["frm"] <= n < rg["to"]:
+                    rg = dict(rg, to=n + 1, kind="range")
+                    rrc = replay_range(rg, 20 * HANG_S)
+                if rrc not in (None, 0):
+                    # minimise: drop seeds from the front of the range while it still aborts
+                    step, tries = (rg["to"] - rg["frm"]) // 2, 0
+                    while step >= 1 and tries < 14:
+                        cand = dict(rg, frm=rg["frm"] + step)
+                        tries += 1
+                        if cand["frm"] < cand["to"] and replay_range(cand, 20 * HANG_S) not in (None, 0):
+                            rg = cand
+                            step = min(step, (rg["to"] - rg["frm"]) // 2)
+                        else:
+                            step //= 2
+                    dst = os.path.join(rep_dir, f"{prop}-{rg['frm']}-{rg['to']}.range.json")
+                    json.dump(rg, open(dst, "w"))
+                    confirmed.append(({"seed": int(seedinfo[1]), "classes": ["process_abort_cumulative"], "detail": f"worker aborted (rc={rc}) at seed {seedinfo[1]}; the seed alone terminates, re-running the worker's seed range {rg['frm']}..{rg['to']} in a fresh process aborts again (rc={rrc}): process state damaged by an earlier run. {se[-200:]}", "signature": f"{prop}|process_abort_cumulative"}, dst))
+                else:
+                    harness_errors.append(f"worker {w} aborted (rc={rc}) at seed {seedinfo[1]} but neither the seed alone nor the worker's seed range aborts when replayed: {se[-300:]}")
         else:
             harness_errors.append(f"worker {w} failed rc={rc}: {se[-500:]}")
 
@@ -526,6 +571,11 @@ def main():
         return
     if a[0] == "--replay":
         c = json.load(open(a[1]))
+        if c.get("kind") == "range":
+            build(c["engine"])
+            rc = replay_range(c, 40 * HANG_S)
+            print(("REPRODUCED" if rc not in (None, 0) else "NOT-REPRODUCED") + f" property={c['prop']} classes=process_abort_cumulative rc={rc}")
+            sys.exit(1 if rc not in (None, 0) else 0)
         engine = c.get("engine", "e1")
         if engine == "e1" and parts_of(PROPS[c["property"]])[0]["engine"] == "e1p":
             engine = "e1p"
